@@ -10,7 +10,7 @@
    EGraph::check (canonical shapes, hash-cons injectivity, slot coverage).  Those are decided per run:
    after EVERY operation of every explored history the implementation is compared with the model and
    judged by check() and the consistency predicates, in the default and the checks build. *)
-From SE Require Import EGraph.Model EGraph.ModelMachine EGraph.ModelFacts EGraph.UnionFindFacts.
+From SE Require Import EGraph.Model EGraph.ModelMachine EGraph.ModelFacts EGraph.UnionFindFacts EGraph.HashconsFacts.
 
 Theorem C08_wf_initial : eg_wf empty_egraph.
 Proof. exact eg_wf_empty. Qed.
@@ -53,6 +53,26 @@ Theorem C08_canonicalisation_idempotent : forall s a b, uf_ok s ->
   find_applied_id s a = Ok b -> find_applied_id s b = Ok b.
 Proof. exact find_idempotent. Qed.
 Print Assumptions C08_canonicalisation_idempotent.
+
+
+(* THE CONSISTENCY CLAUSES, on the model, for every reachable state (EGraph/HashconsFacts.v): the hash-cons and the
+   per-class node tables agree; no shape is stored in two classes ("no e-node belongs to two live classes"); every
+   stored shape is canonical when the operation has returned (no stale shapes; between `uint` and `rebuild` this is
+   false - counterexamples strict_false_mid_rebuild - which is exactly what the pending worklist records); and every
+   e-node listed for a class looks up to that class.  Premise ops_pre: every inserted node has covered children
+   (always true of the handles the model returns), mentions no slot name of generated form at or above the fresh
+   counter, and binds pairwise distinct names - the "well-formed inputs" of the property; both side conditions are
+   shown necessary by counterexamples (HashconsAbs.v). *)
+Theorem C08_structure_consistent_reachable : forall terms ops hs s,
+  ops_pre terms ops [] empty_egraph -> run_ops terms ops [] empty_egraph = Ok (hs, s) ->
+  hc_ok s /\
+  (forall sh i, na_get (hashcons s) sh = Some i <-> (exists p, stored s i sh p)) /\
+  (forall i j sh p q, stored s i sh p -> stored s j sh q -> i = j) /\
+  (forall i sh p, stored s i sh p -> canon s sh) /\
+  (forall i sh bij src nd, stored s i sh (bij, src) -> apply_slotmap false bij sh = Ok nd ->
+     exists a, eg_lookup s nd = Ok (Some a) /\ aid a = i).
+Proof. exact reachable_consistent. Qed.
+Print Assumptions C08_structure_consistent_reachable.
 
 Definition C08_no_error_full : Prop :=
   forall terms ops, exists hs s, run_ops terms ops [] empty_egraph = Ok (hs, s).
